@@ -18,8 +18,11 @@ let run_fixed fixed line =
     let s0 = init_q cap (handler = "1") in
     (* the harness settles once after construction *)
     let s0 = settle fixed (fuel_of s0) s0 in
-    let acts_l = List.map parse_action (split_on ',' actions) in
-    let (s, outs) = List.fold_left (fun (s, acc) a ->
+    (* F<h> (flush on a handle) does not touch the queue: no model event, observation "l" *)
+    let toks = split_on ',' actions in
+    let (s, outs) = List.fold_left (fun (s, acc) tok ->
+      if tok.[0] = 'F' then (s, "l" :: acc) else
+      let a = parse_action tok in
       let gate_busy = (match s.q_wk with WCounted _ -> true | _ -> false) in
       let (s', o) = act fixed s a in
       let txt = match a with
@@ -29,7 +32,7 @@ let run_fixed fixed line =
         | ASample -> (match o.ob_sample with
             | Some (((a, b), c), d) -> Printf.sprintf "s%d.%d.%d.%d" (int_of_nat a) (int_of_nat b) (int_of_nat c) (int_of_nat d)
             | None -> "s?") in
-      (s', txt :: acc)) (s0, []) acts_l in
+      (s', txt :: acc)) (s0, []) toks in
     let dl = List.map (fun (id, o) -> Printf.sprintf "%d:%s" (int_of_nat id) (show_out o)) s.q_delivered in
     let positions = List.filter_map (fun x -> x)
       (List.mapi (fun i (_, o) -> match o with SErr _ -> Some (i + 1) | _ -> None) s.q_delivered) in
@@ -101,7 +104,7 @@ let coq_case line =
   | ["Q"; cap; handler; actions] when String.length actions < 400 ->
     let capv = if cap = "u" then None else Some (nat_of_int (int_of_string cap)) in
     let h = (handler = "1") in
-    let acts_l = List.map parse_action (split_on ',' actions) in
+    let acts_l = List.map parse_action (List.filter (fun t -> t.[0] <> 'F') (split_on ',' actions)) in
     let s0 = init_q capv h in
     let (s, os) = acts true (settle true (fuel_of s0) s0) acts_l in
     let init = Printf.sprintf "(init_q %s %s)" (g_option g_nat capv) (g_bool h) in
